@@ -757,6 +757,11 @@ def c08_endings(victim_kind):
         'exit-after-sec': ({'config': {'exit_after': 0.3}}, {}, 'clean'),
         'exit-after-str': ({'config': {'exit_after': '0:00.3'}}, {}, 'clean'),
         'exit-after-at':  ({'config': {'exit_after': '@2025-06-15T15:06:40.300+00:00'}}, {}, 'clean'),
+        # '@time' without an offset is UTC when LOG_UTC is on and local time otherwise (process zone UTC+5: both name the same instant)
+        'exit-after-at-utc':   ({'config': {'exit_after': '@2025-06-15T15:06:40.300'}}, {'log_utc': True, 'tz': 'VRF-5'}, 'clean'),
+        'exit-after-at-local': ({'config': {'exit_after': '@2025-06-15 20:06:40.300'}}, {'log_utc': False, 'tz': 'VRF-5'}, 'clean'),
+        'ctor-bad-option': ({'config': {'exit_after': [5]}}, {}, 'init-error'),         # rejected while the filter object is constructed
+        'ctor-bad-mqlog':  ({'config': {'mq_log': 'everything'}}, {}, 'init-error'),
         'init-bad-source': ({'sources_raw': ['file:///nowhere']}, {}, 'init-error'),
     }
 
@@ -830,6 +835,8 @@ def c08_family(tier):
                                     f['ops'] = list(f.get('ops', ())) + [('stall_from', 1, 60_000)]
                         elif k == 'fail_bind':
                             s['fail_bind'] = {f'ipc://{victim}' + ('.req' if v == 'PULL' else ''): 0}
+                        elif k in ('log_utc', 'tz'):
+                            s[k] = v
 
                     out.append(s)
 
